@@ -5,6 +5,7 @@ import (
 	"reflect"
 	"unsafe"
 
+	"github.com/goccy/go-json/internal/errors"
 	"github.com/goccy/go-json/internal/runtime"
 )
 
@@ -41,8 +42,15 @@ func (d *wrappedStringDecoder) DecodeStream(s *Stream, depth int64, p unsafe.Poi
 	}
 	b := make([]byte, len(bytes)+1)
 	copy(b, bytes)
-	if _, err := d.dec.Decode(&RuntimeContext{Buf: b}, 0, depth, p); err != nil {
+	if isWhiteSpace[b[0]] {
+		return errors.ErrInvalidCharacter(b[0], "quoted value", s.totalOffset())
+	}
+	c, err := d.dec.Decode(&RuntimeContext{Buf: b}, 0, depth, p)
+	if err != nil {
 		return err
+	}
+	if c != int64(len(bytes)) {
+		return errors.ErrInvalidCharacter(b[c], "quoted value", s.totalOffset())
 	}
 	return nil
 }
@@ -59,10 +67,18 @@ func (d *wrappedStringDecoder) Decode(ctx *RuntimeContext, cursor, depth int64, 
 		return c, nil
 	}
 	bytes = append(bytes, nul)
+	if isWhiteSpace[bytes[0]] {
+		return 0, errors.ErrInvalidCharacter(bytes[0], "quoted value", c)
+	}
 	oldBuf := ctx.Buf
 	ctx.Buf = bytes
-	if _, err := d.dec.Decode(ctx, 0, depth, p); err != nil {
+	end, err := d.dec.Decode(ctx, 0, depth, p)
+	if err != nil {
 		return 0, err
+	}
+	if end != int64(len(bytes))-1 {
+		// the quoted text must be exactly one value, not a value plus a remainder
+		return 0, errors.ErrInvalidCharacter(bytes[end], "quoted value", c)
 	}
 	ctx.Buf = oldBuf
 	return c, nil
